@@ -90,7 +90,7 @@ def degenerate_steps(B, piv, N, rel=1e-9):
     return zero, tiny, res
 
 
-def gen_region_case(rng, nmax=9, mmax=5, feasible_only=True, graded=0.0):
+def gen_region_case(rng, nmax=9, mmax=5, feasible_only=True, graded=0.0, tiny=0.0):
     n = int(rng.integers(3, nmax + 1))
     m = int(rng.integers(2, min(n, mmax) + 1))
     B = rng.integers(-40, 41, size=(n, m)) / 8.0
@@ -109,6 +109,10 @@ def gen_region_case(rng, nmax=9, mmax=5, feasible_only=True, graded=0.0):
             tries += 1
         if not (s <= len(L) and N - s <= n - len(L)):
             L, s = [], 0
+    if rng.random() < tiny:
+        # entries that are zero only up to round-off (1e-13 ... 1e-19 of the others): leading entries of pivot columns among them
+        mask = rng.random(B.shape) < 0.35
+        B = np.where(mask, rng.choice([-1.0, 1.0], size=B.shape) * 2.0 ** -rng.integers(44, 64, size=B.shape), B)
     if L and rng.random() < graded:
         # badly scaled data: the region rows live on a scale 2^27 .. 2^32 times larger (exact in doubles)
         B = B.copy()
